@@ -23,6 +23,7 @@ p = argparse.ArgumentParser()
 p.add_argument("--steps", type=int)
 p.add_argument("--first", type=int, default=0)
 p.add_argument("--sleep", type=float)
+p.add_argument("--crash", type=int, default=0)   # signal number the job sends to itself after its first report
 a, _ = p.parse_known_args()
 t0 = time.time()
 for step in range(a.first + 1, a.steps + 1):
@@ -30,6 +31,11 @@ for step in range(a.first + 1, a.steps + 1):
     print("[tune-metric]: " + json.dumps({"step": step, "m": 1.0 / step, "st_worker_timestamp": time.time(),
                                           "st_worker_time": time.time() - t0, "st_worker_iter": step - a.first - 1}))
     sys.stdout.flush()
+    if a.crash:
+        import os, resource
+        resource.setrlimit(resource.RLIMIT_CORE, (0, 0))   # no core dump
+        os.kill(os.getpid(), a.crash)                      # SIGSEGV / SIGABRT / SIGKILL: the job dies hard
+        time.sleep(5)
 '''
 
 
@@ -141,15 +147,123 @@ def run_local_case(spec):
                 resumed=len(resumed))
 
 
+
+# ------------------------------------------------------------------------------------------------------
+# jobs that die from a signal the backend did not send (segmentation fault, abort, OOM kill)
+# ------------------------------------------------------------------------------------------------------
+def run_crash_case(spec):
+    """n_workers=1, every job reports once and then kills itself with ``spec['signal']``; the failure limit is the
+    criterion that has to end the run. Returns dict(outcome, statuses, failed, started, alive)."""
+    from syne_tune import Tuner, StoppingCriterion
+    from syne_tune.backend import LocalBackend
+    from syne_tune.optimizer.scheduler import TrialScheduler, TrialSuggestion, SchedulerDecision
+
+    class StartOnly(TrialScheduler):
+        def __init__(self):
+            super().__init__(config_space={"steps": 50, "first": 0, "sleep": 0.01, "crash": spec["signal"]})
+
+        def _suggest(self, trial_id):
+            return TrialSuggestion.start_suggestion(dict(self.config_space))
+
+        def on_trial_result(self, trial, result):
+            return SchedulerDecision.CONTINUE
+
+        def metric_names(self):
+            return ["m"]
+
+        def metric_mode(self):
+            return "min"
+
+    logging.disable(logging.CRITICAL)
+    old_folder = os.environ.get("SYNETUNE_FOLDER")
+    outcome, statuses, alive, failed, started = ["normal"], [], [], 0, 0
+    try:
+        with tempfile.TemporaryDirectory(prefix="verif-local-") as tmp, contextlib.redirect_stdout(io.StringIO()):
+            os.environ["SYNETUNE_FOLDER"] = tmp
+            script = os.path.join(tmp, "train_steps.py")
+            with open(script, "w") as f:
+                f.write(SCRIPT)
+            backend = LocalBackend(entry_point=script)
+            tuner = Tuner(trial_backend=backend, scheduler=StartOnly(),
+                          stop_criterion=StoppingCriterion(max_num_trials_started=spec["safety_net"], max_wallclock_time=20),
+                          n_workers=1, sleep_time=spec["poll"], max_failures=spec["max_failures"], tuner_name="verif-local-crash",
+                          callbacks=[], suffix_tuner_name=False, save_tuner=False)
+            try:
+                tuner.run()
+            except ValueError as e:
+                outcome = ["failure_limit", str(e)[:60]]
+            except Exception as e:
+                outcome = ["exception", type(e).__name__]
+            procs = dict(backend.trial_subprocess)
+            deadline = time.time() + 3.0
+            while time.time() < deadline and any(p.poll() is None for p in procs.values()):
+                time.sleep(0.05)
+            alive = sorted(t for t, p in procs.items() if p.poll() is None)
+            for p in procs.values():
+                if p.poll() is None:
+                    p.kill()
+            for p in procs.values():
+                with contextlib.suppress(Exception):
+                    p.wait(timeout=2)
+            st = tuner.tuning_status
+            statuses = [[t, str(s)] for t, s in st.last_trial_status_seen.items()]
+            failed, started = int(st.num_trials_failed), int(st.num_trials_started)
+    finally:
+        logging.disable(logging.NOTSET)
+        if old_folder is None:
+            os.environ.pop("SYNETUNE_FOLDER", None)
+        else:
+            os.environ["SYNETUNE_FOLDER"] = old_folder
+    return dict(outcome=outcome, statuses=statuses, failed=failed, started=started, alive=alive)
+
+
+def check_crash(spec, out):
+    """Every job died from a signal after its first report: it FAILED (nobody stopped it). Hence: more than
+    max_failures failures are counted, run() raises the failure-limit error, and - one worker, the failure is seen by
+    the poll after the crash and one more trial is started in that same iteration - at most max_failures + 2 trials
+    are ever started."""
+    bad = []
+    mf = spec["max_failures"]
+    if out["outcome"][0] != "failure_limit" or out["failed"] <= mf:
+        bad.append(("every job kills itself with signal %d after its first report, max_failures=%d: run() ended with %s, "
+                    "num_trials_failed=%d, %d trials started, statuses %s" % (spec["signal"], mf, out["outcome"], out["failed"],
+                                                                              out["started"], out["statuses"]),
+                    dict(check="failure_limit", event="signal_killed_job_not_counted_as_failed", backend="local")))
+    elif out["started"] > mf + 2:
+        bad.append(("max_failures=%d but %d trials were started (every job crashes)" % (mf, out["started"]),
+                    dict(check="failure_limit", event="trials_started_after_failure_limit", backend="local")))
+    if out["alive"]:
+        bad.append(("subprocesses of trials %s alive after run()" % out["alive"],
+                    dict(check="finally", event="subprocess_alive_after_run", backend="local")))
+    return bad
+
 def gen_local_spec(rng, k):
     return dict(kind="local", n_workers=1 + k % 2, n_trials=1 + k % 2, first_steps=2, sleep_short=0.01,
                 long_steps=400, sleep_long=0.05, poll=rng.choice([0.25, 0.35]), max_evals=2 * (1 + k % 2) + 2,
                 raise_in_scheduler=(k % 3 == 2))
 
 
+def gen_crash_spec(rng, k):
+    import signal
+    return dict(kind="local", scenario="crash", signal=int([signal.SIGSEGV, signal.SIGABRT, signal.SIGKILL][k % 3]),
+                max_failures=k % 2, poll=rng.choice([0.15, 0.25]), safety_net=6)
+
+
 def run_local(ctx, replay_cases):
-    specs = replay_cases if replay_cases is not None else [gen_local_spec(ctx.rng, k) for k in range(ctx.n(3, 12))]
+    if replay_cases is not None:
+        specs = replay_cases
+    else:
+        specs = [gen_local_spec(ctx.rng, k) for k in range(ctx.n(3, 12))] + [gen_crash_spec(ctx.rng, k) for k in range(ctx.n(2, 6))]
     for spec in specs:
+        if spec.get("scenario") == "crash":
+            out = run_crash_case(spec)
+            ctx.count(dict(spec), nontrivial=True)
+            ctx.traces_validated += 1
+            ctx.h("local_backend_crash", "signal=%d,max_failures=%d,%s,failed=%d,started=%d" % (
+                spec["signal"], spec["max_failures"], out["outcome"][0], out["failed"], out["started"]))
+            for what, sig in check_crash(spec, out):
+                ctx.violation("property", "[LocalBackend] " + what, case=dict(spec), signature=dict(sig, signal=spec["signal"]))
+            continue
         out = None
         for attempt in range(3):   # the scenario needs the job's exit to be seen together with its last result
             out = run_local_case(spec)
